@@ -154,7 +154,6 @@ func runW2(t *testing.T, job *Job, seed uint64, rp *Replay) RunOut {
 	}
 	scfg, pol := schedConfig(seed, simrt.NewRng(seed, "schedcfg"))
 	ro.Policy = pol
-	scfg.MaxQuantum = 5 * time.Millisecond
 	w := &w2World{emStart: map[string]int{}, emEnd: map[string]int{}}
 	var vio *Vio
 	res := simrt.Run(t, scfg, func() {
